@@ -596,6 +596,7 @@ def run(tier, replay=None):
         "a pool whose members share read names is outside the comparison with a merged BAM (mates are paired by name within a sample)",
     ])
     chk.prove()
+    chk.require("dataset:uncallable-record(NOA)", "the missing calls of such a record depend on the sample's own ploidy only")
     drv = C.Driver(EXE)
     r = C.rng(PROP)
     work = tempfile.mkdtemp(prefix="verif-c10-")
